@@ -230,15 +230,21 @@ def sessionRun (tb : Tables) (pinnedItnum : Bool) (ds : DispSt) : Drv W Nat Stri
         match solveRaise (envOf tb) c c.run c.ticks d0 j with
         | (dr, none) => some dr
         | _ => none   -- the call ended earlier (NaN stop): the ordinary path describes it
-    let (d1, o, oname) := match raised with
-      | some dr => (dr, Outcome.nan, "cbraise")
-      | none => (d1n, on, outcomeStr on)
+    -- display with period 0: the first insert of the call raises ZeroDivisionError
+    let zdiv : Option (Drv W Nat String) := if insertRaises ds.opts then
+        (match solveInsertRaise (envOf tb) (cbv.map (·.toCallback)) d0 with
+         | (dz, none) => some dz
+         | _ => none) else none
+    let (d1, o, oname) := match zdiv, raised with
+      | some dz, _ => (dz, Outcome.nan, "zerodiv")
+      | none, some dr => (dr, Outcome.nan, "cbraise")
+      | none, none => (d1n, on, outcomeStr on)
     -- the pinned tree's counter defect, reported separately (classification of a known finding only)
     let itPinned : Int := if o == .ok && m ≤ 0 then solvePinnedItnum m d1.itnum else d1.itnum
     let _ := pinnedItnum
     -- printing: one `insert` per new record, then `end()` unless the NaN stop raised
     let k := d1.rows.length - d.rows.length
-    let s1 := dispInserts ds.opts k ds.st
+    let s1 := if zdiv.isSome then dispInsertRaise ds.st else dispInserts ds.opts k ds.st
     let s2 := if o == .ok then dispEnd ds.opts s1 else s1
     let printed := s2.out.drop ds.st.out.length
     let ds := { ds with st := s2 }
@@ -326,8 +332,7 @@ def handler : Handler := fun op j =>
         | some dj => do
           some { display := ← fBool? dj "display", period := ← fNat? dj "period",
                  shiftCycles := ← fBool? dj "shift_cycles", overwrite := ← fBool? dj "overwrite" }
-      if dopts.period = 0 then none
-      else some (ok (jArr (sessionRun tb false ⟨dopts, Disp.init dopts⟩ d ops)))
+      some (ok (jArr (sessionRun tb false ⟨dopts, Disp.init dopts⟩ d ops)))
   | "kwargs" => do
     let kw ← (← fList? j "kw").mapM (fun p => do
       let l ← getList? p
